@@ -286,7 +286,8 @@ impl Exec {
             let t: ParsingTable<'static, _, P> = ParsingTable::new(e, class, buf);
             for st in script.iter() {
                 let what = st[0].as_str().unwrap_or("");
-                let sop = json!({"op": format!("tbl_{what}"), "arg": st.get(1).cloned().unwrap_or(json!([]))});
+                let mut sop = json!({"op": format!("tbl_{what}"), "arg": st.get(1).cloned().unwrap_or(json!([]))});
+                if what == "walk" { sop["src"] = st.get(2).cloned().unwrap_or(json!("iter")); }
                 let ev = match what {
                     "len" => {
                         let (r, a, m) = measured(|| t.len());
@@ -320,6 +321,17 @@ impl Exec {
                             Ok(n) => json!({"out":"ok","n":n,"items":items.iter().map(|x| x.proj()).collect::<Vec<_>>()}),
                             Err(p) => panic_res(&p) }, a, m)
                     }
+                    "walk" => {
+                        // the provided Iterator methods on one iterator object of this table
+                        let into = st.get(2).and_then(|v| v.as_str()) == Some("into_iter");
+                        let res = if into {
+                            let t2: ParsingTable<'static, _, P> = ParsingTable::new(e, class, buf);
+                            crate::walk::walk(t2.into_iter(), &st[1], &|x: P| x.proj())
+                        } else {
+                            crate::walk::walk(t.iter(), &st[1], &|x: P| x.proj())
+                        };
+                        event(&sop, res, 0, 0)
+                    }
                     other => panic!("harness: bad table step {other}"),
                 };
                 evs.push(ev);
@@ -342,9 +354,14 @@ impl Exec {
                 for x in it { if items.len() < ITER_CAP { items.push(x); } n += 1; if n > 4 * ITER_CAP { break; } }
                 n
             });
-            event(op, match r {
+            let mut res = match r {
                 Ok(n) => json!({"out":"ok","n":n,"items":items.iter().map(|x| x.proj()).collect::<Vec<_>>()}),
-                Err(p) => panic_res(&p) }, a, m)
+                Err(p) => panic_res(&p) };
+            if op.get("walk").is_some() && res["out"] == "ok" {
+                let it: ParsingIterator<'static, _, P> = ParsingIterator::new(e, class, buf);
+                res["walk"] = crate::walk::walk(it, &op["walk"], &|x: P| x.proj());
+            }
+            event(op, res, a, m)
         }))
     }
 
